@@ -23,6 +23,10 @@ _add("A", [("0", "0"), ("8", "8"), ("F", "1"), ("F", "2"), ("4", "4"), ("9", "9"
 _add("0", [("F", "1"), ("F", "2"), ("4", "4"), ("C", "C"), ("6", "6"), ("E", "E"), ("9", "9"), ("I", "0"), ("D", "0"), ("5", "0")])
 # Partially filled
 _add("1", [("F", "1"), ("F", "2"), ("4", "4"), ("C", "C"), ("6", "6"), ("E", "E"), ("9", "9"), ("I", "1"), ("D", "1")])
+# Stopped (a guaranteed order, matrices D: "order stopped", then filled / cancelled / expired like an acknowledged one)
+_add("0", [("7", "7")])
+_add("1", [("7", "7")])
+_add("7", [("F", "1"), ("F", "2"), ("4", "4"), ("C", "C"), ("7", "7"), ("I", "7")])
 # Suspended -> released
 _add("9", [("0", "0"), ("D", "0"), ("D", "1"), ("4", "4"), ("9", "9")])
 # Pending cancel: the cancel, status precedence during fills, still pending
